@@ -284,6 +284,13 @@ def ctrl_depth(c, block):
     return n
 
 
+def loop_depth(c, block):
+    """Number of loop headers `block` sits inside: dominating switches that are re-reached from the block (the `for`/`while` test)."""
+    doms = c.dominators().get(block, set())
+    after = c.reachable_from(block)
+    return sum(1 for d in doms if d != block and c.blocks[d]["term"]["k"] == "switch" and d in after)
+
+
 def closure_creation_depth(P, name):
     """Control depth at which a closure body is created in its parent (summed through nested closures): the closure's sites inherit those guards."""
     total = 0
